@@ -71,12 +71,13 @@ TRACK = ["skfem.assembly.form.bilinear_form:BilinearForm._assemble",
 REQUIRED_MONITORS = ["pairs-computed-exactly-once", "operands-are-the-pair", "slots-written-exactly-once",
                      "writes-disjoint-across-workers", "writer-computed-the-pair", "stored-value-equals-serial",
                      "coo-bitwise-equal-serial", "csr-bitwise-equal-serial", "shared-inputs-unchanged",
-                     "workers-joined-before-return", "no-worker-exception"]
+                     "workers-joined-before-return", "no-worker-exception", "reused-form-equals-serial"]
 REQUIRED_REACH = ["two-workers-alive-at-once", "empty-chunk:more-threads-than-pairs",
                   "kernels-of-different-workers-interleaved", "enumeration-exhaustive", "enumeration-sampled",
                   "store-gate-used", "yield-injected", "rectangular-local-block", "complex-dtype",
                   "schedule-realised", "nthreads=1", "nthreads=pairs+2", "workers-spawned:decorator",
-                  "workers-spawned:numpy-int"]
+                  "workers-spawned:numpy-int", "one-form-object-many-bases",
+                  "local-function-zero-value-nonzero-gradient"]
 
 
 # --------------------------------------------------------------------------- integrands
@@ -800,6 +801,57 @@ def fam_observe(ctx, k):
         ctx.reached("observed:integrand-exception-not-propagated-from-worker")
 
 
+def fam_reuse(ctx, k):
+    """One threaded BilinearForm object assembled over a sequence of different bases (other local sizes, rectangular
+    blocks, a facet basis on a single facet where a local function has zero values but a non-zero gradient at every
+    quadrature point), each result held bit for bit against serial assembly by a fresh serial form.  Free-running
+    threads: the subject is the partition of pairs for each call, not the schedule."""
+    import skfem
+    rng = ctx.rng()
+    kind = ("tri", "quad", "line", "tet")[k % 4]
+    mc = _mesh(rng, kind, "tiny") if kind != "quad" else G.quad_mesh(rng, n=(2, 2))
+    mesh = mc.mesh
+    names = {"tri": ("ElementTriP1()", "ElementTriP2()", "ElementTriP0()"),
+             "quad": ("ElementQuad1()", "ElementQuad2()", "ElementQuad0()"),
+             "line": ("ElementLineP1()", "ElementLineP2()", "ElementLineP0()"),
+             "tet": ("ElementTetP1()", "ElementTetP2()", "ElementTetP0()")}[kind]
+    formname = ("mass-x", "h-weighted", "convect")[(k // 4) % 3]
+    raw = make_form(formname, 1)
+    dtype = (np.float64, np.float32)[(k // 12) % 2]
+    b1 = skfem.CellBasis(mesh, _elem(names[0]))
+    b2 = skfem.CellBasis(mesh, _elem(names[1]))
+    b0 = b2.with_element(_elem(names[2]))
+    f = int(rng.integers(mesh.facets.shape[1])) if kind != "line" else int(mesh.boundary_facets()[0])
+    seq = [("cell-low", b1, None), ("cell-high", b2, None), ("rectangular", b2, b0), ("cell-low-again", b1, None)]
+    if kind != "line":
+        fb = skfem.FacetBasis(mesh, _elem(names[0]), facets=np.array([f], dtype=np.int32))
+        seq.insert(2, ("single-facet", fb, None))
+        fbh = skfem.FacetBasis(mesh, _elem(names[1]), facets=np.array([f], dtype=np.int32))
+        seq.append(("single-facet-high", fbh, None))
+    order = rng.permutation(len(seq))
+    nth = int(rng.integers(2, 8))
+    threaded = skfem.BilinearForm(raw, dtype=dtype, nthreads=nth)
+    for pos in order:
+        label, ub, vb = seq[pos]
+        args = (ub,) if vb is None else (ub, vb)
+        A = threaded.assemble(*args)
+        S = skfem.BilinearForm(raw, dtype=dtype, nthreads=0).assemble(*args)
+        same = (A.shape == S.shape and _bytes_equal(A.toarray(), S.toarray()))
+        npairs = int(ub.Nbfun * (vb or ub).Nbfun)
+        ctx.check("reused-form-equals-serial", same,
+                  mech=("threaded-form-object-reused-across-local-sizes" if label.startswith("cell") or label == "rectangular"
+                        else "threaded-differs-on-single-facet-basis"),
+                  step=label, sequence=[seq[i][0] for i in order], nthreads=nth, form=formname, mesh=type(mesh).__name__,
+                  pairs=npairs, worst=lambda: float(np.abs(A.toarray() - S.toarray()).max()) if A.shape == S.shape else None)
+        if label.startswith("single-facet"):
+            vals = [bool(np.any(np.array(ub.basis[i][0]))) for i in range(ub.Nbfun)]
+            grads = [bool(np.any(ub.basis[i][0].grad)) for i in range(ub.Nbfun)]
+            if any((not v) and g for v, g in zip(vals, grads)):
+                ctx.reached("local-function-zero-value-nonzero-gradient")
+    ctx.reached("one-form-object-many-bases")
+    ctx.nontrivial("reuse", kind, formname, nth, tuple(int(i) for i in order))
+
+
 _enum_kernel = fam_enum(False)
 _enum_fine = fam_enum(True)
 
@@ -811,6 +863,7 @@ FAMILIES = [
     Family("sampled-large", fam_sampled, quick=24, thorough=660, budget={"quick": 30, "thorough": 420}),
     Family("sweep-threadcounts", fam_sweep, quick=36, thorough=680, budget={"quick": 30, "thorough": 420}),
     Family("stress-yield", fam_stress, quick=16, thorough=480, budget={"quick": 30, "thorough": 420}),
+    Family("reuse-form-object", fam_reuse, quick=24, thorough=480, budget={"quick": 30, "thorough": 300}),
     Family("observe-integrand-exception", fam_observe, quick=1, thorough=1),
 ]
 
